@@ -142,52 +142,9 @@ def c17_break_only_after_transition(F, rep):
 
 # ---------------------------------------------------------------- C14-R5
 def c14_generator_source_per_environment(F, rep):
-    rep.rule("C14-R5", "comprehensions: a generator's source expression is evaluated once per binding environment (inside the loop over the environments, with that "
-                       "environment, unconditionally) - a later generator may depend on variables bound by an earlier one")
-    its = [it for it in F.syn("mech_interpreter.lib") if it["k"] == "fn" and it["name"] == "comprehension_environments"]
-    if not rep.check(len(its) == 1, "C14-R5", "anchor:comprehension_environments", "comprehension_environments not found"):
-        return
-    it = its[0]
-    n = 0
-    for m in find(it["body"], "match"):
-        for arm in m[2]:
-            if "ComprehensionQualifier::Generator" not in render_pat(arm[0]):
-                continue
-            loops = [lp for lp in find(arm[2], "for")]
-            env_loops = [lp for lp in loops if re.search(r"\benvs\b", render(lp[2]))]
-            if not rep.check(len(env_loops) >= 1, "C14-R5", "generator:loop-over-environments", "the Generator arm no longer loops over the binding environments"):
-                continue
-            lp = env_loops[0]
-            loopvar = [p[1] for p in find(lp[1], "pident")]
-
-            def uncond_calls(stmts, guarded, out):
-                for st in stmts:
-                    e = st[2] if st[0] == "let" else st[1] if st[0] == "expr" else None
-                    if e is None:
-                        continue
-                    if is_node(e) and e[0] in ("if", "match"):
-                        for c in find(e[1], "call"):
-                            out.append((c, guarded))
-                        sub = [e[2]] + ([e[3][1]] if e[0] == "if" and e[3] is not None and e[3][0] == "block" else []) if e[0] == "if" else [a[2][1] if is_node(a[2]) and a[2][0] == "block" else [["expr", a[2], False]] for a in e[2]]
-                        for s in sub:
-                            uncond_calls(s, True, out)
-                    elif is_node(e) and e[0] == "for":
-                        for c in find(e[2], "call"):
-                            out.append((c, guarded))
-                        uncond_calls(e[3], guarded, out)
-                    else:
-                        for c in find(e, "call"):
-                            out.append((c, guarded))
-            calls = []
-            uncond_calls(lp[3], False, calls)
-            src = [(c, g) for c, g in calls if last_seg(path_of(c[1]) or "") == "expression" and any(x[1] in loopvar for a in c[2] for x in find(a, "path"))]
-            n += 1
-            ok = any(not g for _, g in src)
-            rep.check(ok, "C14-R5", "generator:source-evaluated-per-environment",
-                      "comprehension_environments: the generator's source expression is %s: a generator whose source mentions a variable bound by an earlier generator gets the elements computed for another binding" % (
-                          "evaluated only under a condition inside the loop over the environments (cached across bindings)" if src else "not evaluated with the loop's environment at all"),
-                      "comprehension_environments (mech_interpreter.lib)", sample={"loop_variable": loopvar, "source_calls": len(src)})
-    rep.floor("C14-R5", "generator arms examined", n, 1)
+    """moved to rules/c14b.py (helpers inlined, roles by provenance instead of local names); kept here as an alias for callers of the old name"""
+    from rules.c14b import generator_source_per_environment
+    return generator_source_per_environment(F, rep)
 
 
 # ---------------------------------------------------------------- C16-R7
@@ -330,74 +287,9 @@ def no_unconditional_self_recursion(F, rep, rule, crates, only=None, floor=300):
 
 # ---------------------------------------------------------------- C14-R6
 def c14_membership_complement(F, rep):
-    rep.rule("C14-R6", "membership: over the four combinations of (kinds equal, set contains element) the ∈ kernel is `kinds equal AND contains` and the ∉ kernel is its exact negation")
-    structs = {}
-    for it in F.syn("mech_set.lib"):
-        if it["k"] == "method" and it["name"] == "solve" and it.get("body"):
-            structs[str(it["self"])] = it
-    want = {"SetElementOfFxn": lambda ke, c: ke and c, "SetNotElementOfFxn": lambda ke, c: not (ke and c)}
-
-    class NE(Exception):
-        pass
-
-    def ev(e, ke, c):
-        if not is_node(e):
-            raise NE()
-        t = e[0]
-        txt = re.sub(r"\s", "", render(e))
-        if t == "bool":
-            return bool(e[1])
-        if t == "paren":
-            return ev(e[1], ke, c)
-        if t == "mcall" and e[2] == "contains":
-            return c
-        if t == "bin" and e[1] in ("==", "!=") and "kind" in txt:
-            return ke if e[1] == "==" else (not ke)
-        if t == "un" and e[1] == "!":
-            return not ev(e[2], ke, c)
-        if t == "un" and e[1] == "*":
-            return ev(e[2], ke, c)
-        if t == "bin" and e[1] == "&&":
-            return ev(e[2], ke, c) and ev(e[3], ke, c)
-        if t == "bin" and e[1] == "||":
-            return ev(e[2], ke, c) or ev(e[3], ke, c)
-        raise NE()
-
-    def run_stmts(stmts, ke, c, out):
-        for st in stmts:
-            e = st[1] if st[0] == "expr" else None
-            if e is None or not is_node(e):
-                continue
-            if e[0] in ("unsafe", "block"):
-                run_stmts(e[1], ke, c, out)
-            elif e[0] == "assign" and re.match(r"^\*?\(?\*?out", re.sub(r"\s", "", render(e[1]))):
-                out.append(ev(e[2], ke, c))
-            elif e[0] == "if":
-                if ev(e[1], ke, c):
-                    run_stmts(e[2], ke, c, out)
-                elif e[3] is not None:
-                    run_stmts(e[3][1] if e[3][0] == "block" else [["expr", e[3], False]], ke, c, out)
-    n = 0
-    for name, f in want.items():
-        it = [v for k, v in structs.items() if name in k]
-        if not rep.check(len(it) == 1, "C14-R6", "anchor:%s" % name, "%s::solve not found" % name):
-            continue
-        wrong = []
-        try:
-            for ke in (True, False):
-                for c in (True, False):
-                    out = []
-                    run_stmts(it[0]["body"], ke, c, out)
-                    n += 1
-                    if not out or out[-1] != f(ke, c):
-                        wrong.append("kinds %s, %s -> %s" % ("equal" if ke else "differ", "contained" if c else "not contained", out[-1] if out else "nothing written"))
-        except NE:
-            rep.note("C14-R6-undecided", "%s::solve not interpretable" % name)
-            continue
-        rep.check(not wrong, "C14-R6", "%s:truth-table" % name,
-                  "%s::solve is not %s: %s" % (name, "`kinds equal AND contains`" if name == "SetElementOfFxn" else "the negation of ∈ (`kinds differ OR not contained`)", "; ".join(wrong)),
-                  "%s (mech_set.lib)" % name, sample={"kernel": name, "combinations": 4})
-    rep.floor("C14-R6", "membership kernel evaluations", n, 8)
+    """moved to rules/c14b.py (the output is the place `out()` returns, not a local called `out..`)"""
+    from rules.c14b import membership_complement
+    return membership_complement(F, rep)
 
 
 # ---------------------------------------------------------------- C12-R5
@@ -1032,82 +924,16 @@ def c11_block_operand_positions(F, rep):
 
 # ---------------------------------------------------------------- C14-R8 the kind of a set operator's result is the kind of its own elements
 def c14_result_kind_from_result(F, rep):
-    rep.rule("C14-R8", "result metadata of the set operators: wherever a set kernel assigns the kind of its output set, the kind is read from the OUTPUT's own elements (or is Empty for an "
-                       "empty result) and never copied from an operand - `{} Δ {1,2}` holds numbers, so a kind inherited from the empty left operand makes every membership test fail")
-    n = 0
-    for it in F.syn("mech_set.lib"):
-        if it["k"] != "method" or it["name"] != "solve" or not it.get("body"):
-            continue
-        th = re.sub(r"<.*$", "", it["self"])
-        names = {x[1] for x in find(it["body"], "path")} | {render(f) for f in find(it["body"], "field")}
-        if not (any(re.search(r"\blhs", x) for x in names) and any(re.search(r"\brhs", x) for x in names)):
-            continue          # the binary set-algebra operators only (insert / remove / powerset have their own kind rules)
-        for a in find(it["body"], "assign"):
-            lhs = render(a[1]).replace(" ", "")
-            if not re.match(r"^\(?\*?\(?out\w*\)?\.kind$|^out\w*\.kind$", lhs):
-                continue
-            n += 1
-            roots = {x[1] for x in find(a[2], "path") if re.match(r"^(lhs|rhs|arg|source|self)\w*$", x[1])} | \
-                    {render(f) for f in find(a[2], "field") if re.match(r"^self\.(lhs|rhs|arg)", render(f))}
-            reads_out = any(re.match(r"^out\w*$", x[1]) for x in find(a[2], "path"))
-            ok = not roots and reads_out
-            rep.check(ok, "C14-R8", "%s:kind-from-result" % th if ok else "%s:kind-from-%s" % (th, "+".join(sorted(roots)) or "nothing-of-the-result"),
-                      "%s::solve sets the output set's kind to `%s`: it %s - the result can hold elements of another kind than it reports (set/element-of, not-element-of and remove compare kinds first)" % (
-                          th, render(a[2])[:90], ("reads the operand(s) %s" % sorted(roots)) if roots else "does not read the result's elements"), "%s (mech_set.lib)" % th, sample={"kernel": th})
-    rep.floor("C14-R8", "output-kind assignments in set kernels", n, 4)
+    """moved to rules/c14b.py (operands / result are the struct fields a local was taken from)"""
+    from rules.c14b import result_kind_from_result
+    return result_kind_from_result(F, rep)
 
 
 # ---------------------------------------------------------------- C14-R9 a kind test a set kernel applies silently is applied loudly when the kernel is built
 def c14_kind_guard_mirrored(F, rep):
-    from lib import guards as G
-    rep.rule("C14-R9", "no silent empty result: when a set kernel's solve() clears its output and refills it only under a kind test (a call of a *types_match / match_types predicate), "
-                       "the function that builds the kernel applies the same predicate and returns Err when it fails - otherwise `set/insert({}, 1)` or an element of another kind "
-                       "quietly yields the empty set")
-    items = F.syn("mech_set.lib")
-    n = 0
-    for it in items:
-        if it["k"] != "method" or it["name"] != "solve" or not it.get("body"):
-            continue
-        th = re.sub(r"<.*$", "", it["self"])
-        clears = [m for m in find(it["body"], "mcall") if m[2] == "clear" and re.search(r"out\w*\.set$|out\w*\)\.set$", render(m[1]).replace(" ", ""))]
-        if not clears:
-            continue
-        preds = set()
-        lets = {}
-        for st in find(it["body"], "let"):
-            if len(st) > 2 and st[2] is not None:
-                calls = [path_of(c[1]).split("::")[-1] for c in find(st[2], "call") if path_of(c[1]) and re.search(r"match", path_of(c[1]).split("::")[-1])]
-                for b in find(st[1], "pident"):
-                    if calls:
-                        lets[b[1]] = calls[0]
-        guarded = False
-        for site, facts in G.sites(it["body"], "assign") + G.sites(it["body"], "mcall"):
-            tgt = render(site[1]).replace(" ", "") if site[0] == "assign" else (render(site[1]).replace(" ", "") if site[2] in ("insert", "extend") else "")
-            if not re.search(r"out\w*\)?\.set$", tgt):
-                continue
-            for c, pol in G.atoms(facts):
-                for x in walk(c):
-                    if x[0] == "path" and x[1] in lets:
-                        preds.add(lets[x[1]])
-                        guarded = True
-        if not guarded:
-            continue
-        n += 1
-        # builders: functions of the same module constructing this struct
-        builders = [b for b in items if b["k"] == "fn" and b.get("mod") == it.get("mod") and b.get("body") and any(s_[1].split("::")[-1] == th for s_ in find(b["body"], "struct"))]
-        mirrored = False
-        for b in builders:
-            for r_, facts in G.sites(b["body"], "ret"):
-                if r_[1] is None or not re.match(r"^Err\(", render(r_[1])):
-                    continue
-                for c, pol in G.atoms(facts):
-                    if any(x[0] == "call" and path_of(x[1]) and path_of(x[1]).split("::")[-1] in preds for x in walk(c)) or \
-                            any(x[0] == "path" and x[1] in preds for x in walk(c)):
-                        mirrored = True
-        rep.check(mirrored, "C14-R9", "%s:kind-test-mirrored" % th if mirrored else "%s:kind-test-only-in-solve:%s" % (th, "+".join(sorted(preds))),
-                  "%s::solve clears its output and refills it only when %s holds, but %s never reject(s) the failing case: the operation silently returns the empty set (e.g. inserting into `{}`, "
-                  "whose kind is Empty, or inserting an element of another kind)" % (th, sorted(preds), [b["name"] for b in builders] or "its builders"), "%s (mech_set.lib)" % th, sample={"kernel": th, "predicates": sorted(preds)})
-    rep.floor("C14-R9", "set kernels that refill a cleared output under a kind test", n, 1)
+    """moved to rules/c14b.py (predicates are followed through named locals and private helpers on both sides)"""
+    from rules.c14b import kind_guard_mirrored
+    return kind_guard_mirrored(F, rep)
 
 
 # ---------------------------------------------------------------- C16-R10 broadcasting a scalar function over a matrix keeps order and shape
